@@ -104,7 +104,9 @@ Definition in_pend (s : st) (o : id) : bool := existsb (opt_is o) (pend s).
 Definition null_pend (o : id) (p : list (option id)) := map (fun x => if opt_is o x then None else x) p.
 
 Definition nitems (s : st) : nat := length (reg s).
-(* gc->mitems = gc->nitems + gc->nitems / 2 + 1 *)
+(* the collection threshold of the pinned tree: gc->mitems = gc->nitems + gc->nitems / 2 + 1.
+   WHEN a collection runs is tuning: the machine takes the rule as a parameter (`mrule`, read off
+   the source as Generated.gc_mitems_rule), and every theorem holds for every rule. *)
 Definition mitems_rule (n : nat) : nat := n + n / 2 + 1.
 
 Inductive ev :=
@@ -126,6 +128,7 @@ Inductive route := RReturn | RExit | RExitInBlock | RThrow | RExitStatus | RExit
 | RSigCaughtExit.    (* a signal exception caught, later exit() from a nested call *)
 
 Section Machine.
+  Variable mrule : nat -> nat.           (* gc->mitems = mrule(gc->nitems) after a sweep / a removal *)
   Variables rem_fix sweep_fix defer_fix : bool.
 
   (* GC_Rem (rem(current(GC), p), i.e. del / del_root), with `fin` = dealloc(destruct(.)). *)
@@ -142,7 +145,7 @@ Section Machine.
         else if in_reg s p
              then fin (set_reg (rem_reg p (reg s)) s) p   (* found: remove, nitems--, finalise *)
              else s                                  (* not registered: nothing happens *)
-      in set_mitems (mitems_rule (nitems s1)) s1.    (* GC_Resize_Less; mitems rule *)
+      in set_mitems (mrule (nitems s1)) s1.    (* GC_Resize_Less; mitems rule *)
 
   Definition live_pend (s : st) : nat := length (filter (fun x => match x with Some _ => true | None => false end) (pend s)).
 
@@ -172,7 +175,7 @@ Section Machine.
   Definition sweep (fin : st -> id -> st) (order marks : list id) (s : st) : st :=
     let dead := filter (fun o => negb (is_root s o) && negb (existsb (Nat.eqb o) marks)) (arrange order s) in
     let r' := filter (fun e => negb (existsb (Nat.eqb (fst e)) dead)) (reg s) in
-    let s1 := set_mitems (mitems_rule (length r')) (set_pend (map Some dead) (set_reg r' s)) in
+    let s1 := set_mitems (mrule (length r')) (set_pend (map Some dead) (set_reg r' s)) in
     let s2 := sweep_loop fin (length dead) 0 s1 in
     set_pend [] s2.
 
